@@ -738,6 +738,9 @@ package keeper
 //@ ensures [no-deps] E == old(E) && X == old(X)
 
 //@ func Keeper.ChangeRewardDenoms
+//@ loop 1 step [added-denom-registered] k.ConsumerRewardDenomExists(ctx, denomToAdd) && (forall key bytes :: key != types.ConsumerRewardDenomsKey(denomToAdd) ==> S[key] == prev(S[key]))
+//@ loop 2 step [removed-denom-unregistered] !k.ConsumerRewardDenomExists(ctx, denomToRemove) && (forall key bytes :: key != types.ConsumerRewardDenomsKey(denomToRemove) ==> S[key] == prev(S[key]))
+//@ ensures [only-the-registry] forall key bytes :: fam(key) != FamRewardDenoms ==> S[key] == old(S[key])
 //@ ensures [no-deps] E == old(E) && X == old(X)
 
 //@ func msgServer.UpdateParams
